@@ -196,6 +196,26 @@ func (w *IPWalk) Run(entry *Ctx, starts []Node) {
 		push(ipKey{}, ipState{ctx: entry, b: entry.Fn.Blocks[0], i: 0})
 	}
 	for _, n := range starts {
+		if de, ok := n.In.(deferEvent); ok {
+			// continue after every RunDefers this deferred call runs at
+			instrsOf(n.Ctx.Fn, func(in ssa.Instruction) {
+				rd, ok := in.(*ssa.RunDefers)
+				if !ok {
+					return
+				}
+				for _, d := range deferredCalls(n.Ctx.Fn, rd) {
+					if d == de.Defer {
+						bb := rd.Block()
+						for i, x := range bb.Instrs {
+							if x == ssa.Instruction(rd) {
+								push(ipKey{n.Ctx, n.In, nil, nil}, ipState{ctx: n.Ctx, b: bb, i: i + 1})
+							}
+						}
+					}
+				}
+			})
+			continue
+		}
 		b := n.In.Block()
 		for i, in := range b.Instrs {
 			if in == n.In {
